@@ -39,7 +39,7 @@ def run_ppu(run, mode, rule):
     for src, lyc in configs:
         run.mc(SPECDIR, "PPU_MC.tla", "PPU_MC.cfg", env={"SRC": src, "LYC": lyc}, workers=4, name="whole line/mode graph with LCD on/off in every state, source %d LYC %d" % (src, lyc))
     files = []
-    for fam in ("frames", "switch", "rand"):
+    for fam in ("frames", "switch", "rand", "regs"):
         fs, _ = run.gen("ppu", fam=fam)
         files += fs
     accepted, ids = run.validate(files, SPECDIR, "PPU_Trace.tla", "PPU_Trace.cfg", env={"MODE": mode}, heap="6g")
